@@ -30,6 +30,7 @@ GENDRIVER = os.path.join(LEAN, ".lake", "build", "bin", "skagendriver")
 SELGENDRIVER = os.path.join(LEAN, ".lake", "build", "bin", "skaselgendriver")
 DENSGENDRIVER = os.path.join(LEAN, ".lake", "build", "bin", "skadensgendriver")
 WRAPGENDRIVER = os.path.join(LEAN, ".lake", "build", "bin", "skawrapgendriver")
+RNGGENDRIVER = os.path.join(LEAN, ".lake", "build", "bin", "skarnggendriver")
 ALLOWED_AXIOMS = {"propext", "Classical.choice", "Quot.sound"}
 FORBIDDEN = re.compile(
     r"\bsorry\b|\badmit\b|^axiom\s|native_decide|bv_decide|implemented_by|\bunsafe\s|maxHeartbeats\s+0\b",
